@@ -203,6 +203,16 @@ func (c *EvalCtx) lookup(name string) (Val, bool) {
 			}
 		}
 	}
+	if !c.noRename && c.x != nil && c.frame != nil && c.frame.depth > 0 && c.frame.fn != nil && c.x.e.contractOf(c.frame.fn) == nil {
+		// an invariant that followed its loop into an extracted helper, whose locals may have been renamed on the way
+		if now := c.x.e.migratedName(c.x.fn, c.frame.fn, name); now != "" && now != name {
+			d := *c
+			d.noRename = true
+			if v, ok := d.lookup(now); ok {
+				return v, true
+			}
+		}
+	}
 	if !c.noRename && c.x != nil {
 		// the source may spell the identifier differently than when the contract was written (see locals.go)
 		fn := c.x.fn
